@@ -41,6 +41,10 @@ def random_spec(rng, name):
             kw = dict(a=float(rng.uniform(0.0003, 0.002)), b=float(rng.uniform(0.05, 0.2)), c=float(rng.uniform(0.5, 1.2)))
         elif name == "super":
             kw = dict(v22=float(rng.uniform(0.005, 0.02)), v12=float(rng.uniform(0.0005, 0.003)), v23=float(rng.uniform(0.005, 0.02)))
+            if rng.random() < 0.7:
+                # a small but non-zero gap (1e-6..1e-5) on top of large absolute energies (0.5): well conditioned, not degenerate
+                delta = float(10 ** rng.uniform(-6, -5))
+                kw = dict(v11=0.5, v22=0.5 + delta, v33=0.6, v12=float(rng.uniform(0.2, 0.6)) * delta, v23=1e-4)
         elif name in ("modelx", "models"):
             kw = dict(a=float(rng.uniform(0.01, 0.04)), b=float(rng.uniform(1, 2)), c=float(rng.uniform(0.003, 0.01)), xp=float(rng.uniform(5, 9)))
         elif name in ("modelw", "modelz"):
@@ -63,6 +67,8 @@ def random_position(rng, model, name):
     if name in ("modelw", "modelz"):
         return rng.uniform(-0.5, 0.5, size=n)
     x = rng.uniform(-8, 8, size=n)
+    if name == "super" and getattr(model, "v11", 0.0) == 0.5:
+        x = rng.uniform(-1.2, 1.2, size=n)           # inside the coupling region of the near-degenerate pair
     if name in ("simple", "extended") and abs(x[0]) < 0.05:      # documented kink at 0
         x[0] = 0.3
     return x
@@ -371,6 +377,9 @@ def run(ctx):
                 spec = {"name": "synth", "seed": int(rng.integers(1, 10 ** 6)), "N": int(rng.integers(2, 7)), "n": int(rng.integers(1, 5))}
             else:
                 spec = random_spec(rng, name)
+                if name == "super" and r == 1:
+                    delta = float(10 ** rng.uniform(-6, -5.4))
+                    spec["kwargs"] = dict(v11=0.5, v22=0.5 + delta, v33=0.6, v12=float(rng.uniform(0.2, 0.6)) * delta, v23=1e-4)
             if name not in ("shin-metiu",) and r % 4 == 3:
                 spec["representation"] = "diabatic"
             try:
